@@ -149,7 +149,7 @@ namespace glm
 	template<typename genType>
 	GLM_FUNC_QUALIFIER GLM_CONSTEXPR genType ln_ln_two()
 	{
-		return genType(-0.3665129205816643);
+		return genType(-0.366512920581664327012439158232669469454);
 	}
 
 	template<typename genType>
